@@ -120,6 +120,13 @@ def truth_records(draw, min_storms=4, max_storms=10, noise=False,
         m = m2
         if m >= M - 1:
             break
+    while len(rain) < 3:
+        # (no storm fitted under the curve: still a loadable record)
+        if m < M:
+            _, m = dry(1, m)
+        else:
+            rain.append(0.0)
+            z.append(z[-1])
     # the last dry step's end sample is also dry only if another dry step
     # follows; append one closing dry step so the interval's end is plain
     # (rain list has one entry per step; z has one more sample)
